@@ -207,6 +207,24 @@ def value_pair_docs():
         d.entity(EX["e1"], [(EX["p"], vals[a]), (EX["q"], vals[b])])
         d.entity(EX["e2"], [(EX["p"], vals[b])])
         yield ("value pair %r / %r" % (vals[a], vals[b]), d)
+    # the same pairs under ONE attribute, where a Python set keeps both (values that are not == , and a URI next to the
+    # qualified name of that URI, which are == but hash differently): on an element, on an identified and on an anonymous
+    # relation, at document level and in a bundle, in both insertion orders
+    def coexist(x, y):
+        s_ = set(); s_.add(x); s_.add(y)
+        return len(s_) == 2
+    for a, b in itertools.permutations(range(len(vals)), 2):
+        x, y = vals[a], vals[b]
+        if isinstance(x, datetime.datetime) or isinstance(y, datetime.datetime) or not coexist(x, y):
+            continue
+        d = M.ProvDocument(); d.add_namespace(EX)
+        bb = d.bundle(EX["b"])
+        for c in (d, bb):
+            c.entity(EX["e1"], [(EX["p"], x), (EX["p"], y), (EX["q"], "other")])
+            c.activity(EX["a1"])
+            c.used(EX["a1"], EX["e1"], identifier=EX["u1"], other_attributes=[(EX["p"], x), (EX["p"], y)])
+            c.wasGeneratedBy(EX["e1"], EX["a1"], other_attributes=[(EX["p"], y), (EX["p"], x)])
+        yield ("values %r and %r under one attribute" % (x, y), d)
 
 
 def typed_element_docs():
